@@ -30,7 +30,7 @@
   therefore hold with and without wrap-around; the `_nowrap` corollaries restate the two age
   clauses in plain seconds under the explicit hypothesis `NoWrap`.
 -/
-import Lungo.Proofs.OplogLaws
+import Lungo.Proofs.OplogSteps
 namespace Lungo.C08
 open Lungo
 
@@ -283,5 +283,279 @@ private def L6 : List (Nat × Nat) := [(100, 1), (100, 2), (200, 1), (300, 1), (
 -- wrap-around: nowT = 100 < age 900 gives a cutoff near 2³², everything looks old
 #guard cutoffT 100 900 == 4294966496
 #guard cutoffT 1000 900 == 100
+
+/-! ## Part 2 — event ids (`ids_strict_mono`)
+
+  In the model the event id `_id.ts` is `(0, k)` with `k` the logical clock (the harness renumbers
+  the real `bsonkit.Now()` stamps, which are strictly increasing by construction of `Now`). -/
+
+/-- strictly increasing timestamps -/
+def StrictlyIncreasing (L : List (Nat × Nat)) : Prop := L.Pairwise fun a b => tsLt a b = true
+
+theorem range_strict (a n : Nat) : StrictlyIncreasing ((List.range' a n).map fun k => (0, k)) := by
+  unfold StrictlyIncreasing
+  rw [List.pairwise_map]
+  have : (List.range' a n).Pairwise (· < ·) := List.pairwise_lt_range'
+  exact this.imp (fun {x y} hxy => by rw [tsLt_iff]; right; exact ⟨rfl, hxy⟩)
+
+/-- `ids_strict_mono`: in every state reachable from the empty engine by successful driver calls the
+    events' ids are exactly `(0,1), …, (0,clock)` in log order — hence strictly increasing, pairwise
+    distinct, and the hypotheses of the retention theorems (`HasTs`, `NonDecreasing`) hold. -/
+theorem ids_strict_mono (sch : SchemaEval) (s : Sys) (h : Reachable sch s) :
+    let L := (List.range' 1 s.catalog.clock).map fun k => (0, k)
+    s.catalog.oplog.map (fun sd => eventTs sd.doc) = L.map some ∧
+    StrictlyIncreasing L ∧ L.Nodup ∧ NonDecreasing L ∧ s.catalog.oplog.length = s.catalog.clock := by
+  intro L
+  have hi := h.inv.ids
+  have hs : StrictlyIncreasing L := range_strict 1 _
+  refine ⟨by rw [hi]; simp [L], hs, ?_, ?_, ?_⟩
+  · exact hs.imp (fun {a b} hab e => by
+      rw [e, tsLt_iff] at hab
+      omega)
+  · exact hs.imp (fun {a b} hab => by
+      rw [tsLt_iff] at hab
+      unfold tsLe
+      omega)
+  · have := congrArg List.length hi
+    simpa using this
+
+/-- one step: the new state's log is the old log plus freshly numbered events (nothing is rewritten) -/
+theorem step_appends (sch : SchemaEval) (s s' : Sys) (c : Call) (oids : List V) (r : Reply)
+    (h : Reachable sch s) (hr : Sys.step sch s c oids = .ok (s', r)) :
+    ∃ es : List EvSpec, s'.catalog.oplog.map (·.doc) = s.catalog.oplog.map (·.doc) ++ evDocs s.catalog.clock es ∧
+      s'.catalog.clock = s.catalog.clock + es.length := by
+  obtain ⟨es, he⟩ := Sys.step_ext sch s s' c oids r h.inv.plain hr
+  exact ⟨es, he.oplog, he.clock⟩
+
+/-- retention keeps the ids strictly increasing (it removes a prefix) -/
+theorem clean_keeps_strict (t : Txn) (L : List (Nat × Nat)) (h : HasTs t L) (hs : StrictlyIncreasing L)
+    (minSize maxSize : Int) (minAgeS maxAgeS : Nat) (z : Bool) (nowT nowI : Nat) :
+    let k := cleanCount L minSize maxSize minAgeS maxAgeS z nowT nowI
+    HasTs (t.clean minSize maxSize minAgeS maxAgeS z nowT nowI) (L.drop k) ∧ StrictlyIncreasing (L.drop k) := by
+  intro k
+  refine ⟨?_, hs.sublist (List.drop_sublist k L)⟩
+  unfold HasTs at *
+  rw [clean_prefix t L h, List.map_drop, h, List.map_drop]
+
+/-! ## Part 3 — silent operations (`silent_ops`) -/
+
+/-- executing a call: a failing call leaves the system as it was (`Sys.step` returns no state on error;
+    the driver keeps the old one — in Go: the transaction is aborted, `engine.catalog` is not replaced) -/
+def Sys.exec (sch : SchemaEval) (s : Sys) (c : Call) (oids : List V) : Sys :=
+  match Sys.step sch s c oids with
+  | .ok (s', _) => s'
+  | .error _ => s
+
+/-- the events recorded between two states -/
+def newEvents (s s' : Sys) : List Doc := (s'.catalog.oplog.drop s.catalog.oplog.length).map (·.doc)
+
+theorem silent_failed_call (sch : SchemaEval) (s : Sys) (c : Call) (oids : List V) (e : Err)
+    (h : Sys.step sch s c oids = .error e) : Sys.exec sch s c oids = s ∧ newEvents s (Sys.exec sch s c oids) = [] := by
+  simp [Sys.exec, h, newEvents]
+
+/-- a transaction that is not dirty (aborted / nothing written) publishes nothing: same catalog, no event -/
+theorem silent_clean_txn (s : Sys) (t : Txn) (nu : Nu) (h : t.dirty = false) :
+    (s.commit t nu).catalog = s.catalog ∧ newEvents s (s.commit t nu) = [] := by
+  have := Sys.commit_clean s t nu h
+  simp [newEvents, this]
+
+/-- every transaction method either hands back the very same transaction (not dirty, same catalog)
+    or a dirty one — there is no way to change the catalog without the dirty flag -/
+theorem txn_unchanged_or_dirty (sch : SchemaEval) (s s' : Sys) (c : Call) (oids : List V) (r : Reply)
+    (hp : OplogPlain s.catalog) (hr : Sys.step sch s c oids = .ok (s', r)) :
+    ∃ es : List EvSpec, Ext s.catalog s'.catalog es := Sys.step_ext sch s s' c oids r hp hr
+
+theorem oplog_same_of_set {cat : Catalog} {h : Handle} {x : Coll} (hne : h ≠ oplogHandle) :
+    (cat.set h x).oplog = cat.oplog ∧ (cat.set h x).clock = cat.clock :=
+  ⟨by unfold Catalog.oplog; rw [Catalog.get?_set_other _ _ _ _ (Ne.symm hne)],
+   by unfold Catalog.set; split <;> rfl⟩
+
+/-- creating a collection appends no event -/
+theorem silent_create (t t' : Txn) (h : Handle) (hr : t.create h = .ok t') :
+    t'.catalog.oplog = t.catalog.oplog ∧ t'.catalog.clock = t.catalog.clock := by
+  unfold Txn.create at hr
+  split at hr
+  · cases hr
+  · rename_i hw
+    split at hr
+    · simp only [Except.ok.injEq] at hr; subst hr; exact ⟨rfl, rfl⟩
+    · simp only [Except.ok.injEq] at hr; subst hr
+      exact oplog_same_of_set (writable_not_oplog hw)
+
+/-- creating an index appends no event -/
+theorem silent_createIndex (sch : SchemaEval) (t t' : Txn) (h : Handle) (name name' : String) (cfg : IndexConfig)
+    (hr : t.createIndex sch h name cfg = .ok (t', name')) :
+    t'.catalog.oplog = t.catalog.oplog ∧ t'.catalog.clock = t.catalog.clock := by
+  unfold Txn.createIndex at hr
+  split at hr
+  · cases hr
+  · rename_i hw
+    split at hr
+    · cases hr
+    · simp only [Except.ok.injEq, Prod.mk.injEq] at hr
+      obtain ⟨rfl, _⟩ := hr
+      exact oplog_same_of_set (writable_not_oplog hw)
+
+/-- dropping indexes appends no event -/
+theorem silent_dropIndex (t t' : Txn) (h : Handle) (name : String) (hr : t.dropIndex h name = .ok t') :
+    t'.catalog.oplog = t.catalog.oplog ∧ t'.catalog.clock = t.catalog.clock := by
+  unfold Txn.dropIndex at hr
+  split at hr
+  · cases hr
+  · rename_i hw
+    split at hr
+    · cases hr
+    · split at hr
+      · cases hr
+      · split at hr
+        · simp only [Except.ok.injEq] at hr; subst hr; exact ⟨rfl, rfl⟩
+        · simp only [Except.ok.injEq] at hr; subst hr
+          exact oplog_same_of_set (writable_not_oplog hw)
+
+/-- Collection.Replace reports a document as modified only if it differs structurally (same BSON
+    encoding ⇔ `V.beq`) from the stored one: a no-op replacement yields `modified = []`. -/
+theorem replace_modified_differs (sch : SchemaEval) (c : Coll) (q repl : Doc) (sort : Option Doc) (nu nu' : Nu)
+    (res : CResult) (hr : c.replace sch q repl sort nu = .ok (res, nu')) :
+    ∀ m ∈ res.modified, ∃ o ∈ res.matched, (V.doc o.doc == V.doc m.doc) = false := by
+  unfold Coll.replace at hr
+  split at hr
+  · cases hr
+  · simp only [Except.ok.injEq, Prod.mk.injEq] at hr
+    obtain ⟨rfl, _⟩ := hr
+    intro m hm; cases hm
+  · rename_i old rest _
+    simp only at hr
+    split at hr
+    · cases hr
+    · rename_i repl' _
+      split at hr
+      · cases hr
+      · simp only [Except.ok.injEq, Prod.mk.injEq] at hr
+        obtain ⟨rfl, _⟩ := hr
+        intro m hm
+        simp only at hm
+        split at hm
+        · cases hm
+        · rename_i hne
+          simp only [List.mem_singleton] at hm
+          subst hm
+          exact ⟨old, by simp, by simpa using hne⟩
+
+/-- Collection.Update reports as modified (and records changes for) exactly the matched documents
+    whose updated version differs structurally from the stored one; `changes` is aligned with
+    `modified`. -/
+theorem update_modified_differs (ac : ACtx) (c : Coll) (q u : Doc) (sort : Option Doc) (skip limit : Int)
+    (fs : List Doc) (nu nu' : Nu) (res : CResult)
+    (hr : c.update ac q u sort skip limit fs nu = .ok (res, nu')) :
+    res.modified.length = res.changes.length ∧
+    ∀ m ∈ res.modified, ∃ o ∈ res.matched, (V.doc o.doc == V.doc m.doc) = false := by
+  unfold Coll.update at hr
+  simp only at hr
+  split at hr
+  · cases hr
+  · simp only [Except.ok.injEq, Prod.mk.injEq] at hr
+    obtain ⟨rfl, _⟩ := hr
+    exact ⟨rfl, fun m hm => by cases hm⟩
+  · rename_i list _ _
+    split at hr
+    · cases hr
+    · rename_i news nu1 _
+      split at hr
+      · cases hr
+      · split at hr
+        · cases hr
+        · split at hr
+          · cases hr
+          · simp only [Except.ok.injEq, Prod.mk.injEq] at hr
+            obtain ⟨rfl, _⟩ := hr
+            refine ⟨by simp, ?_⟩
+            intro m hm
+            simp only [List.mem_map, List.mem_filter] at hm
+            obtain ⟨⟨o, n, ch⟩, ⟨hz, hne⟩, rfl⟩ := hm
+            exact ⟨o, (List.of_mem_zip hz).1, by simpa using hne⟩
+
+/-- a Replace that modifies and upserts nothing returns the transaction unchanged: no event, not dirty -/
+theorem silent_noop_replace (ac : ACtx) (t t' : Txn) (h : Handle) (q repl : Doc) (sort : Option Doc) (upsert : Bool)
+    (nu nu' : Nu) (r : TResult) (hr : t.replace ac h q sort repl upsert nu = .ok (t', r, nu'))
+    (hm : r.modified = []) (hu : r.upserted = none) : t' = t := by
+  unfold Txn.replace at hr
+  split at hr
+  · cases hr
+  · split at hr
+    · simp only [Except.ok.injEq, Prod.mk.injEq] at hr; exact hr.1.symm
+    · split at hr
+      · cases hr
+      · split at hr
+        · rename_i hcond
+          simp only [Except.ok.injEq, Prod.mk.injEq] at hr
+          obtain ⟨_, rfl, _⟩ := hr
+          simp [hm, hu] at hcond
+        · simp only [Except.ok.injEq, Prod.mk.injEq] at hr; exact hr.1.symm
+
+/-- an Update that modifies and upserts nothing returns the transaction unchanged -/
+theorem silent_noop_update (ac : ACtx) (t t' : Txn) (h : Handle) (q u : Doc) (sort : Option Doc) (skip limit : Int)
+    (upsert : Bool) (fs : List Doc) (nu nu' : Nu) (r : TResult)
+    (hr : t.update ac h q sort u skip limit upsert fs nu = .ok (t', r, nu'))
+    (hm : r.modified = []) (hu : r.upserted = none) : t' = t := by
+  unfold Txn.update at hr
+  split at hr
+  · cases hr
+  · split at hr
+    · simp only [Except.ok.injEq, Prod.mk.injEq] at hr; exact hr.1.symm
+    · split at hr
+      · cases hr
+      · split at hr
+        · rename_i hcond
+          simp only [Except.ok.injEq, Prod.mk.injEq] at hr
+          obtain ⟨_, rfl, _⟩ := hr
+          simp [hm, hu] at hcond
+        · simp only [Except.ok.injEq, Prod.mk.injEq] at hr; exact hr.1.symm
+
+/-- a Delete that matches nothing returns the transaction unchanged -/
+theorem silent_noop_delete (sch : SchemaEval) (t t' : Txn) (h : Handle) (q : Doc) (sort : Option Doc) (skip limit : Int)
+    (nu nu' : Nu) (r : TResult) (hr : t.delete sch h q sort skip limit nu = .ok (t', r, nu'))
+    (hm : r.matched = []) : t' = t := by
+  unfold Txn.delete at hr
+  split at hr
+  · cases hr
+  · split at hr
+    · simp only [Except.ok.injEq, Prod.mk.injEq] at hr; exact hr.1.symm
+    · split at hr
+      · cases hr
+      · split at hr
+        · rename_i hcond
+          simp only [Except.ok.injEq, Prod.mk.injEq] at hr
+          obtain ⟨_, rfl, _⟩ := hr
+          simp [hm] at hcond
+        · simp only [Except.ok.injEq, Prod.mk.injEq] at hr; exact hr.1.symm
+
+/-- an Insert none of whose documents could be inserted (all rejected) returns the transaction unchanged -/
+theorem silent_failed_insert (sch : SchemaEval) (t t' : Txn) (h : Handle) (docs : List Doc) (ordered : Bool)
+    (nu nu' : Nu) (r : TResult) (hr : t.insert sch h docs ordered nu = .ok (t', r, nu'))
+    (hm : r.modified = []) : t' = t := by
+  unfold Txn.insert at hr
+  split at hr
+  · cases hr
+  · simp only [Except.ok.injEq, Prod.mk.injEq] at hr
+    obtain ⟨rfl, rfl, _⟩ := hr
+    simp only at hm
+    simp [hm]
+
+-- non-vacuity for parts 2/3: a short history on the model
+private def hA : Handle := ⟨"db", "a"⟩
+private def run (cs : List Call) : Sys := cs.foldl (fun s c => Sys.exec schemaUnmodelled s c []) Sys.init
+private def hist : List Call :=
+  [.insertMany hA [[("_id", .i32 1), ("x", .i32 1)], [("_id", .i32 2), ("x", .i32 2)]] true,
+   .updateMany hA [] [("$set", .doc [("x", .i32 2)])] false [],          -- modifies doc 1 only
+   .updateMany hA [] [("$set", .doc [("x", .i32 2)])] false [],          -- no-op
+   .insertOne hA [("_id", .i32 1)],                                       -- duplicate: fails
+   .createIndex hA "" { key := [("x", .i32 1)] },                         -- no event
+   .replaceOne hA [("_id", .i32 2)] [("x", .i32 2)] false,                 -- no-op replace
+   .deleteMany hA [("x", .i32 7)],                                        -- matches nothing
+   .deleteOne hA [("_id", .i32 2)]]
+#guard (run hist).catalog.clock == 4
+#guard (run hist).catalog.oplog.map (fun sd => eventTs sd.doc) == [some (0, 1), some (0, 2), some (0, 3), some (0, 4)]
+#guard (run hist).catalog.oplog.map (fun sd => Get sd.doc "operationType") == [.str "insert", .str "insert", .str "update", .str "delete"]
+#guard (Sys.step schemaUnmodelled (run (hist.take 3)) (.insertOne hA [("_id", .i32 1)]) []) matches .error _
 
 end Lungo.C08
